@@ -127,10 +127,23 @@ impl Forest {
         let mut const_lines = vec![];
         let mut program_lines = vec![];
         // Pass 1: compute string data for every node
+        //
+        // Nodes with the same IHR are printed once, under the name of whichever one
+        // we see first, so children have to be referred to by that name.
+        let mut printed_names = HashMap::<Ihr, Arc<str>>::new();
+        let name_of = |names: &HashMap<Ihr, Arc<str>>, node: &NamedCommitNode| -> Arc<str> {
+            node.ihr()
+                .and_then(|ihr| names.get(&ihr))
+                .unwrap_or(node.name())
+                .clone()
+        };
         for root in self.roots.values() {
             for data in root.as_ref().post_order_iter::<MaxSharing<_>>() {
                 let node = data.node;
                 let name = node.name();
+                if let Some(ihr) = node.ihr() {
+                    printed_names.entry(ihr).or_insert_with(|| Arc::clone(name));
+                }
                 let mut expr_str = match node.inner() {
                     node::Inner::AssertR(cmr, _) => format!("{} := assertr #{}", name, cmr),
                     node::Inner::Fail(entropy) => format!("{} := fail 0x{}", name, entropy),
@@ -142,11 +155,11 @@ impl Forest {
                 };
                 if let Some(child) = node.left_child() {
                     expr_str.push(' ');
-                    expr_str.push_str(child.name());
+                    expr_str.push_str(&name_of(&printed_names, child));
                 }
                 if let Some(child) = node.right_child() {
                     expr_str.push(' ');
-                    expr_str.push_str(child.name());
+                    expr_str.push_str(&name_of(&printed_names, child));
                 } else if let node::Inner::AssertL(_, cmr) = node.inner() {
                     expr_str.push_str(" #");
                     expr_str.push_str(&cmr.to_string());
